@@ -231,3 +231,11 @@ Proof.
   cbv zeta. split; [intros p x y _ _ E; exact E|]. split; [apply fresh_check_sound; vm_compute; reflexivity|].
   vm_compute. repeat split.
 Qed.
+
+(** The model the theorems above are about is the translation of src/bin/copia/reconcile.rs (Fingerprint::same, reconcile_path) as it is now: the function
+    generated from the source by tools/gen_logic.py (Gen/ReconcileGen.v) equals, on every input, Model/Reconcile.v reconcile_path
+    (statement: Proofs/TieReconcile.v, [reconcile_model_is_translation]). *)
+Require Copia.Proofs.TieReconcile.
+Theorem C06_model_is_translation_of_source : TieReconcile.reconcile_model_is_translation.
+Proof. exact TieReconcile.reconcile_model_is_translation_holds. Qed.
+Print Assumptions C06_model_is_translation_of_source.
